@@ -94,7 +94,7 @@ def build_batch(root, rng, page_ids, with_decoder=False):
         cv2.imwrite(os.path.join(root, 'img', pid + '.png'), img)
         pl = PageLayout(id=pid, page_size=(260, 420))
         reg = RegionLayout('r1', np.array([[5, 5], [415, 5], [415, 255], [5, 255]]))
-        for li in range(1 + (k % 3)):
+        for li in range(0 if pid.startswith('empty') else 1 + (k % 3)):      # page ids starting with 'empty': a sheet without text lines
             y = 50 + 60 * li
             reg.lines.append(TextLine(id='r1-l%03d' % li, baseline=np.array([[20, y], [200 + 60 * li, y]]),
                                       polygon=np.array([[20, y - 22], [200 + 60 * li, y - 22], [200 + 60 * li, y + 9], [20, y + 9]]),
